@@ -1,4 +1,15 @@
-"""C10 -- the cursor API (iscan) enumerates the scan interval in both directions"""
+"""C10 -- the cursor API (iscan) enumerates the scan interval in both directions.
+
+First sentence (quiescent): executable model IScanDefs tied to the code on
+generated trees / intervals / directions, extracted Spec as oracle.
+Second sentence (cursor steps interleaved with writers): explored with
+single-threaded scripts that modify the tree BETWEEN cursor steps (they reach
+every retry path of iscan_findnext); oracle on the implementation's outputs:
+strictly monotone, only keys stored at some instant, no key present throughout
+is skipped, early_abort reports a modification of the node under the cursor."""
+import os
+import random
+
 from . import common as C
 from . import seq
 
@@ -6,12 +17,63 @@ CATS = ["res", "nv"]
 GEN = dict(scans=True, dumps=False, iscans=True)
 
 
+def cursor_phase(res, tier, seed):
+    ok, msg = seq.build("c10")
+    if not ok:
+        return 0, 0
+    rng = random.Random(seed * 31 + 7)
+    scripts = []
+    cdir = os.path.join(C.VERIF, "corpus", "C10")
+    for f in sorted(os.listdir(cdir)) if os.path.isdir(cdir) else []:
+        if f.endswith(".cur"):
+            scripts.append((f, [l.strip() for l in open(os.path.join(cdir, f)) if l.strip()]))
+    for i in range(60 if tier == "quick" else 600):
+        scripts.append(("cur%d" % i, seq.gen_cursor_script(random.Random(rng.getrandbits(40)), tier)))
+    known_hits = 0
+    steps = 0
+    known = C.known_findings("C10")
+    for name, ops in scripts:
+        r = seq.run_script("c10", ops, name=name)
+        if r.error:
+            res.violation("cursor script crashed the implementation: " + r.error, dict(kind="crash", script=ops, tag="c10"))
+            continue
+        steps += sum(1 for o in r.ops if o.startswith("inext"))
+        for (i, why, is_known) in seq.cursor_check(r):
+            if is_known and known:
+                known_hits += 1
+            else:
+                def still(cand):
+                    rr = seq.run_script("c10", cand, name="min")
+                    return (not rr.error) and any(not k for (_, _, k) in seq.cursor_check(rr))
+                small = seq.minimize("c10", ops, still, budget=40)
+                res.violation("cursor: " + why, dict(kind="cursor-oracle", script=small, why=why, tag="c10"))
+                break
+    if known_hits and known:
+        res.known.append("%s (%d occurrences in this run; replay %s)" % (known[0]["what"][:160], known_hits, known[0]["replay"]))
+    return len(scripts), steps
+
+
 def run(tier, seed):
     res = C.Result("C10", tier, seed, level="proof")
-    res.assumptions = ["quiescent sentence only: the concurrent sentence (cursor steps interleaved with writers) is not in a theorem",
+    res.assumptions = ["quiescent sentence: model + Spec oracle; the concurrent sentence is explored with writes between "
+                       "cursor steps (single thread), not in a theorem",
                        "iscan returns the value pointer only: the driver checks it is the pointer get() returns for full_key()"]
+    n, steps = cursor_phase(res, tier, seed)
+    res.cov["cursor_scripts"] = n
+    res.cov["cursor_steps_with_interleaved_writes"] = steps
     return seq.run_seq_property(res, "c10", CATS, 40, 400, gen_kwargs=GEN)
 
 
 def replay(path, tier, seed):
+    import json
+    r = json.load(open(path))
+    if r.get("kind") == "cursor-oracle":
+        seq.build("c10")
+        rr = seq.run_script("c10", r["script"], name="replay")
+        b = seq.cursor_check(rr)
+        for i, o in enumerate(rr.ops):
+            if o.split()[0] in ("iopen", "inext"):
+                print(o, "->", rr.impl[i])
+        print("violations:", b or "none")
+        return 1 if b else 0
     return seq.replay_seq("C10", "c10", path, CATS)
